@@ -34,6 +34,8 @@ def one(kind, sid, vwt, slot, prop=None, expect=None):
     if kind == "seeded":
         try:
             prop = json.load(open(os.path.join(d, "meta.json"))).get("property", prop)
+            # a change whose manifestation belongs to another property's clause is checked there
+            prop = json.load(open(os.path.join(d, "meta.json"))).get("selftest_property", prop)
         except Exception:  # noqa: BLE001
             pass
     # unique per run: two selftest runs at the same time must not share (and remove!) each other's scratch trees — a check
